@@ -85,6 +85,7 @@ class Gen:
         self.script = {}
         self.subs = {}
         self.nodes = 0
+        self.force_quiet = []
 
     def site(self, prefix):
         self.ns += 1
@@ -190,6 +191,7 @@ class Gen:
                     x[0]['n'][0].get('site', '')[:2] == 'M_']
             fins = [x[0] for x in allb if x[2] in ('finally', 'except')]
             tb = r.choice(fins or [x[0] for x in allb])
+            quiet_tb = False
             if r.random() < 0.5:
                 # the classic: a return (or raise) pending in a try body
                 # while its finally part runs the same template again
@@ -207,6 +209,31 @@ class Gen:
                          {'k': 'text', 't': 'pending'}]}})
                 b['n'].append(node)
                 tb = node['finally']
+            elif r.random() < 0.5:
+                # a handler that runs the same template again: the try body
+                # raises another class every time it runs, so the nested
+                # activation handles an exception of its own in the very
+                # same try tag while the outer handler is still going on
+                saved_sw = self.swarm
+                self.swarm = [k for k in saved_sw if k != 'sub']
+                node = self.n_try(depth + 1, 1, False)
+                if node['handlers'][-1]['names']:
+                    node['handlers'].append({'names': [], 'body': self.body(
+                        depth + 2, 2)})
+                self.swarm = saved_sw
+                nx = self.site('NX')
+                self.script[nx] = {'rot': [{'exc': c} for c in r.sample(
+                    ['EA', 'EAB', 'EABC', 'EX', 'EMI', 'ValueError', 'ETY'],
+                    r.choice([2, 3]))]}
+                rb = self.bid()
+                node['body']['n'].append(
+                    {'k': 'raise', 'type': {'site': nx},
+                     'body': {'b': rb, 'n': [self.mark(rb, 'N'),
+                                             {'k': 'text', 't': 'again'}]}})
+                b['n'].append(node)
+                tb = r.choice([h['body'] for h in node['handlers']
+                               if h['body']['n']])
+                quiet_tb = r.random() < 0.6
             rc = self.site('NRC')
             self.script[rc] = [{'v': 1}, {'v': 1}, {'v': 0}]
             ib = self.bid()
@@ -214,6 +241,15 @@ class Gen:
                                     {'k': 'sub', 'name': name}]}
             tb['n'].append({'k': 'if', 'conds': [{'c': {
                 'site': rc, 'how': 'call'}, 'body': inner}], 'else': None})
+            if quiet_tb:
+                # nothing in this part looks at the error binding before the
+                # nested call has come back (a look-up may be remembered)
+                self.force_quiet += [x for x in E.all_sites(tb)
+                                     if x[:2] in ('M_', 'N_')]
+            if quiet_tb or r.random() < 0.6:
+                # the part goes on after the nested call has come back: what
+                # it sees of its own error binding then must still be its own
+                tb['n'].append(self.mark(tb['b'] + 'post'))
             self.subs[name]['recursive'] = True
         return {'k': 'sub', 'name': name}
 
@@ -292,6 +328,8 @@ def gen_case(seed, tier):
             x for v in subs.values() for x in E.all_sites(v['body'])]
             if n[:2] in ('M_', 'N_')})
         quiet = [n for n in marks if rq.random() < 0.4]
+    quiet = sorted((set(quiet) | set(g.force_quiet)) -
+                   {n for n in quiet if n.endswith('post')})
     return {'kind': 'prog', 'body': top, 'subs': subs, 'script': g.script,
             'mode': r.choice(['top', 'top', 'sub']),
             'pair_seed': r.randint(0, 10 ** 9), 'plans': None,
